@@ -289,3 +289,25 @@ class VFunctor(Value):
         self.FT = z3.Function(name + '.ob', T.TyS, T.TyS)
         self.ar_factory = ar_factory
         self.images = {}
+
+
+class VStar(Value):
+    """f(*seq) with a sequence of symbolic length: the whole positional argument list"""
+    kind = 'star'
+
+    def __init__(self, seq):
+        self.seq = seq
+
+
+class VPyFun(Value):
+    """an arbitrary Python function on wire values (cartesian boxes): out : tuple of inputs -> tuple of `cod` outputs,
+    returned by the library's convention (a bare value for one output, a tuple otherwise)"""
+    kind = 'pyfun'
+
+    def __init__(self, name, cod, out=None):
+        import z3
+        from . import terms as T
+        self.name, self.cod = name, cod
+        # out: input tuple term -> output tuple term; an uninterpreted function for a box, a meta-level composition for
+        # the functions built by then / tensor / id at call sites
+        self.out = out if out is not None else z3.Function(name + '.out', T.TyS, T.TyS)
